@@ -98,8 +98,8 @@ PROPS["C09"] = dict(
 )
 
 BYTE_TIER = "byte tier: PDU <= 8 bytes, buffer <= 24 bytes (thorough: 16 / 40), every byte value, positions via symbolic indices"
-EXT_SHAPES_Q = ["o2", "m3", "o2_m0", "m3_o0", "o4_o6", "o8"]
-EXT_SHAPES_T = ["o8_o0", "o6_o4", "o0", "m0", "m8_m2", "o0_o2_o4", "m3_o8_m0", "o2_o4_o6_o8", "m0_o0_m3_m2"]
+EXT_SHAPES_Q = ["o2", "m3", "o2_m0", "m3_o0", "o4_o6", "o8", "o0_o2_o4"]
+EXT_SHAPES_T = ["o8_o0", "o6_o4", "o0", "m0", "m8_m2", "m3_o8_m0", "o2_o4_o6_o8", "m0_o0_m3_m2"]
 EXT_BOUNDS = "chain shape fixed per harness (O(n)=optional with n data bytes, M(n)=mandatory with n data bytes), ids and data symbolic; PDU <= 5, buffer 0..=36 (thorough: 6 / 52), every label/protocol type/sender state"
 
 
@@ -379,9 +379,9 @@ PROPS["C12"] = dict(
     outside=["PDUs longer than 16 bytes in the differential member (covered by the induction argument)"],
 )
 
-C13_RX_Q = ["rx_complete_bc_o8", "rx_complete_bc_o2", "rx_complete_6b_o0", "rx_complete_3b_m3", "rx_complete_ru_o4_o6", "rx_complete_bc_o2_mfinal", "rx_complete_bc_mfinal2",
+C13_RX_Q = ["rx_complete_bc_m3_o8_m0", "rx_complete_bc_o8", "rx_complete_bc_o2", "rx_complete_6b_o0", "rx_complete_3b_m3", "rx_complete_ru_o4_o6", "rx_complete_bc_o2_mfinal", "rx_complete_bc_mfinal2",
             "rx_complete_bc_unknown_m3", "rx_complete_bc_unknown_second"]
-C13_RX_T = ["rx_complete_bc_m3_o8_m0", "rx_complete_bc_o2_o4_o6_o8"]
+C13_RX_T = ["rx_complete_bc_o2_o4_o6_o8"]
 # first fragments WITH extensions on the receiver side: ~17 min and ~25 GB each (measured) -> optional deepening, thorough tier only
 C13_RX_OPT = ["rx_first_bc_o2", "rx_first_6b_m3_o0", "rx_first_bc_mfinal0", "rx_first_bc_unknown_m0"]
 C13_RX_BOUNDS = ("every packet that is the standard's layout of (kind, label type, chain of the named shape with symbolic ids and data, protocol type, payload <= 6 bytes) "
